@@ -336,6 +336,9 @@ def constraints_bounded(spec, cfg, tier, seed):
         rows = [member(k, n, cplx) for k in kinds]
         if name == "per_antenna":
             x = torch.stack([r.reshape(2, n // 2) for r in rows])  # (B, antennas=2, samples)
+        elif trial % 3 == 2:
+            # multi-dimensional items (B, antennas, time) / (B, c, h, w): an item is everything behind the batch dimension
+            x = torch.stack([r.reshape(2, n // 2) if trial % 2 else r.reshape(2, 2, n // 4) for r in rows])
         else:
             x = torch.stack(rows)
         x0 = x.clone()
